@@ -54,6 +54,7 @@ type ChanV struct {
 	cap     int
 	closed  bool
 	offers  []Value // values external senders are ready to send (harness-provided)
+	offerAfter []*ChanV // per offer: the sender only becomes ready once that channel's offers have been taken
 	takers  int     // number of external receivers ready to receive
 	takerFns []Value // callbacks of external receivers (called with the received value at hand-off time)
 	taken   []Value // values received by external receivers
